@@ -34,13 +34,20 @@
    not hold is a REVERTED transaction: no effect, no event - exactly what the real receipts show.
 
    Rules is a record of switches, one per cache rule of the code; all TRUE is the code as it is.  Switching one off
-   must break CacheCoherent (the teeth configs).                                                                     *)
+   must break CacheCoherent (the teeth configs).
+
+   Validator histories are sequences of the actions below on one node: cold (nothing cached: after Restart / Evict),
+   warm on the parent (Validate(parent) before), warm on a sibling (Validate(sibling) first - it reads, and may share,
+   the parent's entry), repeated (Validate twice), restarted.  The conflicts ordinal a validator is given does not occur:
+   nothing in the abstract state depends on it; on the real code it is exercised and ObsDeterministic (trace spec)
+   requires the same roots for every ordinal.                                                                       *)
 EXTENDS Integers, Sequences, FiniteSets, TLC
 
 CONSTANTS Masters,   \* universe of node masters / validators (positive naturals)
           Nodes,     \* validator nodes
           Rules,     \* [authDrop, paramsInv, xferInv, stakerInv, cow, posSync, posOnline, posBen, posNoWrite : BOOLEAN]
-          Cfg        \* initial world, see InitWorld
+          Cfg,       \* initial world, see InitWorld
+          MbpCap     \* thor.InitialMaxBlockProposers (101)
 
 S == INSTANCE Scheduler WITH MaxPosScore <- 10000, V1Walk <- 101
 
@@ -77,11 +84,15 @@ Endorsed(W, m) == W.bal[m] >= W.thr          \* TransitionPeriodBalanceCheck wit
 PosActive(W) == Len(W.lgo) > 0               \* staker.IsPoSActive
 
 \* ---- scheduler.Candidates.Pick ------------------------------------------------------------------------------------
+\* thor.GetMaxBlockProposers(params, capToInitial): 0 means the initial value; PoA (packer AND validator) also caps at it
+EffMbp(mbp, cap) == IF mbp = 0 \/ (cap /\ mbp > MbpCap) THEN MbpCap ELSE mbp
+\* the first `limit` candidates whose endorsor is endorsed (flags in list order), as indices into the list
 RECURSIVE SatFrom(_, _, _, _)
-SatFrom(list, W, i, acc) ==
-  IF i > Len(list) \/ Len(acc) >= W.mbp THEN acc
-  ELSE SatFrom(list, W, i + 1, IF Endorsed(W, list[i].m) THEN Append(acc, i) ELSE acc)
-ComputeSat(list, W) == SatFrom(list, W, 1, <<>>)
+SatFrom(flags, limit, i, acc) ==
+  IF i > Len(flags) \/ Len(acc) >= limit THEN acc
+  ELSE SatFrom(flags, limit, i + 1, IF flags[i] THEN Append(acc, i) ELSE acc)
+SatFlags(flags, mbp) == SatFrom(flags, EffMbp(mbp, TRUE), 1, <<>>)
+ComputeSat(list, W) == SatFlags([i \in DOMAIN list |-> Endorsed(W, list[i].m)], W.mbp)
 PickWith(list, sat) == [k \in 1..Len(sat) |-> [a |-> list[sat[k]].m, act |-> list[sat[k]].act, w |-> 0, ben |-> 0]]
 \* len(c.satisfied) == 0  =>  recompute and memoise;  otherwise the memoised indices are used without looking at the state
 Pick(entry, W) == LET sat == IF Len(entry.sat) = 0 THEN ComputeSat(entry.list, W) ELSE entry.sat
@@ -100,8 +111,9 @@ TotalWeight(W) == SumW(W, W.lgo)                                        \* stake
 Renewals(W, num) == {v \in W.rl : W.val[v].st = "active" /\ (num - W.val[v].start) % W.per = 0 /\ W.val[v].exitB = 0}
 Exiting(W, num)  == {v \in Range(W.lgo) : W.val[v].exitB = num}
 ActivationCount(W, num) ==
-  LET l == Len(W.lgo) - Cardinality(Exiting(W, num)) IN
-  IF l >= W.mbp \/ Len(W.queue) = 0 THEN 0 ELSE Min(W.mbp - l, Len(W.queue))
+  LET l == Len(W.lgo) - Cardinality(Exiting(W, num))
+      m == EffMbp(W.mbp, FALSE)                                  \* the staker does not cap
+  IN IF l >= m \/ Len(W.queue) = 0 THEN 0 ELSE Min(m - l, Len(W.queue))
 HasUpdates(W, num) == Renewals(W, num) # {} \/ Exiting(W, num) # {} \/ ActivationCount(W, num) > 0
 Epoch(W, num) ==
   LET rn  == Renewals(W, num)
@@ -122,7 +134,7 @@ InitWorld(c) == IF c.hay /\ c.tp = 0 THEN Epoch(QueuedWorld(c), 0) ELSE QueuedWo
 SyncPOS(W, num) ==
   IF ~W.hay \/ num < W.tp THEN [w |-> W, active |-> FALSE, upd |-> FALSE]
   ELSE IF ~PosActive(W)
-       THEN IF (W.tp = 0 \/ num % W.tp = 0) /\ num % W.E = 0 /\ Len(W.queue) * 3 >= W.mbp * 2 /\ ActivationCount(W, num) > 0
+       THEN IF (W.tp = 0 \/ num % W.tp = 0) /\ num % W.E = 0 /\ Len(W.queue) * 3 >= EffMbp(W.mbp, FALSE) * 2 /\ ActivationCount(W, num) > 0
             THEN [w |-> Epoch(W, num), active |-> TRUE, upd |-> TRUE]
             ELSE [w |-> W, active |-> FALSE, upd |-> FALSE]
        ELSE IF num % W.E = 0 /\ HasUpdates(W, num)
@@ -187,7 +199,7 @@ ApplyTx(W, tx, num) ==
     [] tx.k = "sben" ->
          IF W.val[tx.m].st \notin {"queued", "active"} \/ W.val[tx.m].exitB # 0 THEN same
          ELSE [w |-> [W EXCEPT !.val[tx.m].ben = tx.v], f |-> [NoFlags EXCEPT !.sk = TRUE, !.be = TRUE]]
-    [] OTHER -> same                                  \* "plain", "reverted": nothing the proposer machinery looks at
+    [] OTHER -> same      \* "plain", "reverted": nothing the proposer machinery looks at; "abort": skipped by the packer
 OrFlags(a, b) == [au |-> a.au \/ b.au, pa |-> a.pa \/ b.pa, sk |-> a.sk \/ b.sk, be |-> a.be \/ b.be, xf |-> a.xf \cup b.xf]
 RECURSIVE ApplyTxs(_, _, _, _)
 ApplyTxs(W, f, txs, num) ==
@@ -202,7 +214,8 @@ BenOf(view, p) == LET hit == {i \in DOMAIN view : view[i].a = p} IN
                   IF hit = {} THEN 0 ELSE view[CHOOSE i \in hit : TRUE].ben
 
 \* ---- packer.Schedule: always from the state of the parent -------------------------------------------------------
-PackerPlan(P, p, now) ==
+\* opt: the packer's own beneficiary choice (node option, else the endorsor); a staker-set beneficiary outranks it
+PackerPlan(P, p, now, opt) ==
   LET num == P.num + 1
       sp  == SyncPOS(P.w, num)
       view == IF sp.active THEN LGView(sp.w) ELSE PoAView(sp.w)
@@ -211,7 +224,7 @@ PackerPlan(P, p, now) ==
      ELSE LET t == S!Schedule(I, p, now) IN
           [ok |-> TRUE, num |-> num, slot |-> t, score |-> S!Score(I, p, t), off |-> S!UpdOff(I, p, t),
            on |-> S!UpdOn(I, p), pos |-> sp.active, w |-> sp.w,
-           benef |-> IF sp.active /\ BenOf(view, p) # 0 THEN BenOf(view, p) ELSE p]
+           benef |-> IF sp.active /\ BenOf(view, p) # 0 THEN BenOf(view, p) ELSE opt]
 
 \* ---- consensus.validate on node n ----------------------------------------------------------------------------------
 \* the cache as validateXProposer sees it: a SyncPOS with updates removes the parent's entry first
@@ -291,9 +304,9 @@ Init ==
   /\ res = (Genesis :> {})
 
 \* proposer p packs block b on parent par with the transactions txs at its earliest own slot >= now
-Pack(b, par, p, now, txs, cord) ==
+Pack(b, par, p, now, txs, cord, opt) ==
   /\ b \notin DOMAIN blocks /\ par \in DOMAIN blocks
-  /\ LET pl == PackerPlan(blocks[par], p, now) IN
+  /\ LET pl == PackerPlan(blocks[par], p, now, opt) IN
      /\ pl.ok
      /\ LET r == ApplyTxs(ApplyUpd(pl.w, pl.pos, pl.off, pl.on), NoFlags, txs, pl.num) IN
         blocks' = (b :> [par |-> par, num |-> NumOf(pl.num), p |-> p, slot |-> pl.slot, score |-> pl.score, benef |-> pl.benef,
